@@ -60,6 +60,20 @@ CHECKS["C16"] = dict(
         "the evidence assumptions; known finding K3 (outsub_nrcbc keeps the other invariant) listed in known_findings.json.",
    ref="§6 C16")
 
+CHECKS["C20"] = dict(
+   technique="contract-based deductive verification: the real mesh constructors executed symbolically (symbolic ncell, nx, "
+             "ny, lengths, ratio; parallel-map loop rule for the centre loop), obligations at generic indices, z3; "
+             "sums by the sum-induction (telescoping) lemma",
+   text="Proof for all ncell>=1 (nx,ny>=1), lengths, origins, ratios, zone proportions that are whole numbers of cells, and "
+        "any strictly increasing morphing function: ncell+1 strictly increasing faces with the stated end points, centres at "
+        "midpoints, positive volumes that sum to the domain length, volume-weighted average exact for constants, the two "
+        "refined zones uniform with the requested ratio; 2-D: cell/face counts, volumes, the four boundary index tables "
+        "(each the boundary faces of its side, pairwise disjoint, injective, interior faces in none), orientation and "
+        "outward unit normals.",
+   note=TB + "; int() as truncation on reals; numpy linspace/append/arange/repeat/average by documented semantics; sums "
+        "over symbolic n through the sum-induction lemma (premises discharged, schema trusted).",
+   ref="§6 C20")
+
 NA = {
  "C04": "convergence of a solve at the design order under mesh refinement is a limit statement over a family of meshes "
         "(and an empirical one for Riemann problems; the reference solutions wrap the external aerokit): no pre/postcondition "
